@@ -714,6 +714,67 @@ def r116(ctx) -> None:
     R.check(eq, rf, rf.node, '_rename_folder renames the mailbox itself '
             '(elem == subdir) as well as its inferiors',
             'no equality test for the renamed mailbox itself')
+    # the new name of an entry = new prefix + what followed the old prefix
+    ps = [p for p in rf.params() if p not in ('self', 'cls')]
+    role = {}
+    for s_ in walk_local(rf.node):
+        if isinstance(s_, ast.Assign) and isinstance(s_.value, ast.Call) \
+                and call_name(s_.value) == '_get_subdir' and s_.value.args \
+                and isinstance(s_.targets[0], ast.Name):
+            a0 = txt(s_.value.args[0])
+            if a0 in ps:
+                role['src' if ps.index(a0) == 0 else 'dst'] = \
+                    s_.targets[0].id
+    key = '_rename_folder: new entry name = new prefix + remainder'
+    renames = [c for c in calls_in(rf.node) if txt(c.func) in (
+        'os.rename', 'os.replace', 'shutil.move') and len(c.args) == 2]
+    if len(role) != 2 or not renames:
+        R.undecided(rf, rf.node, key, 'source/destination prefix or the '
+                    'os.rename call not recognised')
+        return
+    for c in renames:
+        verdict = None
+        for v in resolve_local(rf, c.args[1]):
+            names = [v]
+            if isinstance(v, ast.Call) and call_name(v) == 'join' and v.args:
+                names = resolve_local(rf, v.args[-1])
+            for nv in names:
+                if any(isinstance(x, ast.Call) and call_name(x) == 'replace'
+                       for x in ast.walk(nv)):
+                    verdict = ('fail', txt(nv))
+                    break
+                ok = isinstance(nv, ast.BinOp) and isinstance(nv.op, ast.Add)\
+                    and txt(nv.left) == role['dst'] and (
+                        (isinstance(nv.right, ast.Subscript)
+                         and isinstance(nv.right.slice, ast.Slice)
+                         and nv.right.slice.upper is None
+                         and nv.right.slice.lower is not None
+                         and txt(nv.right.slice.lower)
+                         == f"len({role['src']})")
+                        or (isinstance(nv.right, ast.Call)
+                            and call_name(nv.right) == 'removeprefix'
+                            and [txt(a) for a in nv.right.args]
+                            == [role['src']]))
+                if not ok and verdict is None:
+                    verdict = ('undecided', txt(nv))
+                elif ok and verdict is None:
+                    verdict = ('ok', txt(nv))
+        if verdict is None:
+            verdict = ('undecided', txt(c.args[1]))
+        if verdict[0] == 'fail':
+            R.fail(rf, c, key,
+                   f'`{verdict[1]}` substitutes EVERY occurrence of the old '
+                   f'flat name, not the leading prefix: RENAME Archive Old '
+                   f'moves "Archive/2023/Archive" to "Old/2023/Old" (and '
+                   f'"A/x/Ab" to "B/x/Bb"); the inferior appears under a '
+                   f'name nobody asked for and the promised name does not '
+                   f'exist')
+        elif verdict[0] == 'ok':
+            R.ok(rf, c, key, verdict[1])
+        else:
+            R.undecided(rf, c, key, f'`{verdict[1]}` is neither '
+                        f'<new prefix> + elem[len(<old prefix>):] nor '
+                        f'.removeprefix()')
 
 
 def r117(ctx) -> None:
